@@ -179,6 +179,11 @@ func hasDup(a []string) bool {
 
 // ---------------------------------------------------------------- C05
 
+type heldKey struct {
+	r    int
+	view string
+}
+
 func isSubsequence(sub, seq []string) bool {
 	j := 0
 	for _, s := range seq {
@@ -204,7 +209,7 @@ func CheckC05(run *evid.Run) {
 		x := hx.NewExec(h)
 		shadow := map[string]string{}
 		objShadow := map[iface.IPFSLogEntry]string{} // keeps the objects alive, so no address is ever reused
-		heldMaps := map[int]heldRead{}                // the GetEntries() result each replica handed out after the previous step
+		heldMaps := map[heldKey]heldRead{}            // what the read accessors of each replica handed out after the previous step
 		prev := make([]*hx.Obs, h.Replicas)
 		var tr histTrack
 		for k, s := range h.Steps {
@@ -250,14 +255,15 @@ func CheckC05(run *evid.Run) {
 					run.Violate("C05/values-lost", det("codec", h.Codec, "op", s.Op), wit(), "after the concurrent burst r%d holds %d entries but its linearised view has %d (%s)", s.R, fin.Len, len(fin.Values), where)
 				}
 			}
-			for r, hm := range heldMaps {
-				if now := hm.m.Keys(); len(now) != len(hm.keys) {
-					run.Violate("C05/read-result-mutated", det("codec", h.Codec, "op", s.Op), wit(), "the GetEntries() result r%d handed out earlier had %d entries then and has %d after %s: it aliases the live index", r, len(hm.keys), len(now), where)
+			for key, hm := range heldMaps {
+				if now := hm.m.Keys(); !model.EqualSeq(now, hm.keys) {
+					run.Violate("C05/read-result-mutated", det("codec", h.Codec, "op", s.Op, "view", key.view), wit(), "the %s result r%d handed out earlier had %d entries then and has %d (or another order) after %s: it aliases live state of the log", key.view, key.r, len(hm.keys), len(now), where)
 				}
 			}
 			for r, l := range x.Logs {
-				ge := l.GetEntries()
-				heldMaps[r] = heldRead{ge, append([]string(nil), ge.Keys()...)}
+				for view, m := range map[string]iface.IPFSLogOrderedEntries{"GetEntries()": l.GetEntries(), "RawHeads()": l.RawHeads(), "Heads()": l.Heads(), "Values()": l.Values()} {
+					heldMaps[heldKey{r, view}] = heldRead{m, append([]string(nil), m.Keys()...)}
+				}
 				o := hx.Observe(l)
 				if o.NilEntries > 0 {
 					run.Violate("C05/entry-lost-from-index", det("codec", h.Codec, "op", s.Op), wit(), "r%d hands out %d nil entries after %s (an entry of this instance was overwritten)", r, o.NilEntries, where)
